@@ -62,6 +62,9 @@ def gen(rng: random.Random, tier: str, idx: int) -> dict:
             setup.append({"kind": "multi", "tag": f"s{k}", "n": rng.randint(1, 2)})
     if rng.random() < 0.3:
         setup.append({"kind": "delete_file", "tag": "sd", "k": 0, "with_append": True})
+    if rng.random() < 0.3:
+        # a PRE-BUILT file handed over with append_files (the caller supplied no checksum)
+        setup.insert(rng.randrange(len(setup) + 1), {"kind": "files_append", "tag": "pb", "n": rng.randint(1, 3), "spell": "canon"})
     mode = "damage" if idx % 4 != 3 else "transient"
     return {"backend": backend, "setup": setup, "mode": mode, "cases": None, "sample": 10 if tier == "quick" else None,
             "k_seed": rng.randrange(1 << 30),
@@ -354,7 +357,8 @@ def _damage_case(plan, scratch, seed, snap, st, rows, count, case) -> dict:
                   "msg": f"[{cfg}] {label} returned {shape} although {rel} is "
                          f"{'changed (checksum verification on)' if clause == 'N.data_change_undetected' else 'missing/unparseable'}",
                   "sig": f"{clause}|{kind}|{'delete' if how == 'delete' else how.rstrip('0123456789_m')}|"
-                         f"{'same' if same else ('empty' if got_n == 0 else 'other')}",
+                         f"{'same' if same else ('empty' if got_n == 0 else 'other')}"
+                         + ("|prebuilt" if "/pre_" in rel else ""),
                   "plan_patch": {"cases": [case]}})
         break
     res = common.assemble(ph, V, nontriv, cfg, {"file": rel, "damage": how, "parses": parses,
